@@ -391,133 +391,3 @@ def conditioned_agree(ri, rm, rp, rtol, atol, K=KCOND):
             if abs(x - y) > atol + rtol * max(abs(x), abs(y)) + K * sv:
                 return 'row %d t=%d impl=%r model=%r (sensitivity %r)' % (k, t, x, y, sv)
     return None
-
-
-# ---------------------------------------------------------------- SACTRACE: traced copy of sacramento()
-SACTRACE_GO = os.path.join(HARNESS, 'cmd', 'owrun', 'rr_sactrace.go')
-_SAC_HDR = """// GENERATED on every run of tools/c10.py by rrlib.gen_sactrace() from the CURRENT
-// /repo/models/rr/sacramento.go: func sacramento is copied with its arithmetic unchanged; only the
-// array accessors are replaced by slices and three event detectors are added (first time step at
-// which a quantity leaves the range that the guards of the original Fortran code enforce:
-// ratio < -1 (the Fortran clamps ratio at 0; below -1 the update of adimc is expanding),
-// adimc > uztwm+lztwm, fracp > 1).  SACTRACE reports the events together with the
-// outputs; the check uses them only to classify a failure that the C10 oracle has already found,
-// and only if those outputs are bit-identical to what sim.Catalog["Sacramento"] produced.
-package main
-
-import "math"
-
-var _ = math.Min
-
-const sacTraceAvailable = %s
-const sacPdn20 = 5.08
-const sacPdnor = 25.4
-const sacNunit = 5
-const sacVerySmall = 0.0
-
-type sacEvents struct{ ratioNeg, adimcOver, fracpOver, preGuard int }
-
-func sacSumSlice(s []float64) (sum float64) {
-	sum = 0.0
-	for _, v := range s {
-		sum += v
-	}
-	return
-}
-
-func sacMakeUnitHydrograph(uh1, uh2, uh3, uh4, uh5 float64) []float64 {
-	base := []float64{uh1, uh2, uh3, uh4, uh5}
-	sum := sacSumSlice(base)
-	for i := 0; i < sacNunit; i++ {
-		base[i] = base[i] / sum
-	}
-	return base
-}
-
-"""
-_SAC_STUB = """func sacTrace(rainfall, pet []float64, a, b, c, d, e, f float64, p1, p2, p3, p4, p5, p6, p7, p8, p9, p10,
-	p11, p12, p13, p14, p15, p16, p17, p18, p19, p20, p21, p22 float64,
-	o1, o2, o3, o4, o5 []float64, ev *sacEvents) (float64, float64, float64, float64, float64, float64) {
-	return a, b, c, d, e, f
-}
-"""
-
-
-def gen_sactrace():
-    """(Re)generate harness/cmd/owrun/rr_sactrace.go from /repo's sacramento.go.  If the source no longer has
-    the expected shape the command is generated as unavailable (then nothing is ever suppressed)."""
-    def transform(src):
-        body = src[src.index('func sacramento('):]
-        reps = [('func sacramento(rainfall, pet data.ND1Float64,', 'func sacTrace(rainfall, pet []float64,'),
-                ('actualET, runoff, imperviousRunoff, surfaceRunoff, baseflow data.ND1Float64) (',
-                 'actualET, runoff, imperviousRunoff, surfaceRunoff, baseflow []float64, ev *sacEvents) ('),
-                ('nDays := rainfall.Len1()', 'nDays := len(rainfall)'),
-                ('evapt := pet.Get(idx)', 'evapt := pet[timestep]'),
-                ('pliq := rainfall.Get(idx)', 'pliq := rainfall[timestep]'),
-                ('\tidx := []int{0}\n', ''), ('\t\tidx[0] = timestep\n', '')]
-        for a, b in reps:
-            if a not in body:
-                raise ValueError('pattern not found: ' + a)
-            body = body.replace(a, b)
-        for nm in ('imperviousRunoff', 'surfaceRunoff', 'baseflow', 'runoff', 'actualET'):
-            body, n = re.subn(r'\b%s\.Set\(idx, (.*)\)' % nm, r'%s[timestep] = \1' % nm, body)
-            if n != 1:
-                raise ValueError('output assignment of ' + nm)
-        old = '\t\t\t\tratio := (additionalImperviousStore - uprTensionWater) / lztwm\n'
-        if old not in body:
-            raise ValueError('ratio')
-        body = body.replace(old, old + '\t\t\t\tif ratio < -1 && ev.ratioNeg < 0 {\n\t\t\t\t\tev.ratioNeg = timestep\n\t\t\t\t}\n')
-        old = '\t\t\t\tadditionalImperviousStore = additionalImperviousStore + pinc - addro\n'
-        if old not in body:
-            raise ValueError('adimc update')
-        body = body.replace(old, old + '\t\t\t\tif additionalImperviousStore > uztwm+lztwm && ev.adimcOver < 0 {\n'
-                                       '\t\t\t\t\tev.adimcOver = timestep\n\t\t\t\t}\n')
-        m = re.search(r'\n(\t+)ratls := 1\. - alzfsc/alzfsm\n', body)
-        if not m:
-            raise ValueError('ratls')
-        ind = m.group(1)
-        body = body.replace(m.group(0), m.group(0) + ind + 'if hpl*(ratlp+ratlp)/(ratlp+ratls) > 1 && ev.fracpOver < 0 {\n' +
-                            ind + '\tev.fracpOver = timestep\n' + ind + '}\n', 1)
-        old = '\t\te3 := 0.0\n\t\te5 := 0.0\n'
-        if old not in body:
-            raise ValueError('e3/e5')
-        # the per-step guard pre_guard of KernelProofs/SacramentoLand.v (hypothesis of the guarded theorems)
-        body = body.replace(old, old + '\t\tif (e1+uprTensionWater > additionalImperviousStore || evapt > uztwm+lztwm) && ev.preGuard < 0 {\n'
-                                       '\t\t\tev.preGuard = timestep\n\t\t}\n', 1)
-        for a, b in ((r'\bpdn20\b', 'sacPdn20'), (r'\bpdnor\b', 'sacPdnor'), (r'\bnunit\b', 'sacNunit'), (r'\bVERY_SMALL\b', 'sacVerySmall')):
-            body = re.sub(a, b, body)
-        body = body.replace('makeUnitHydrograph(', 'sacMakeUnitHydrograph(').replace('sumSlice(', 'sacSumSlice(')
-        if 'data.' in body or 'idx' in body:
-            raise ValueError('unexpected use of the array package in sacramento()')
-        return body
-    try:
-        content = (_SAC_HDR % 'true') + transform(open(os.path.join(REPO, 'models', 'rr', 'sacramento.go')).read())
-    except (ValueError, OSError) as e:
-        log('SACTRACE unavailable:', e)
-        content = (_SAC_HDR % 'false') + _SAC_STUB
-    try:
-        if open(SACTRACE_GO).read() == content:
-            return
-    except OSError:
-        pass
-    tmp = SACTRACE_GO + '.tmp%d' % os.getpid()
-    with open(tmp, 'w') as f:
-        f.write(content)
-    os.replace(tmp, SACTRACE_GO)
-
-
-def sactrace_line(ps, st0, rain, pet):
-    return kcase('Sacramento', ps, st0, [rain, pet]).replace('K Sacramento', 'SACTRACE', 1)
-
-
-def parse_sactrace(res):
-    out = res.split()
-    if len(out) < 7 or out[0] != 'OK' or out[1] != 'E':
-        return None
-    ev = {'ratioNeg': int(out[2]), 'adimcOver': int(out[3]), 'fracpOver': int(out[4]), 'preGuard': int(out[5])}
-    return ev, parse_kresult('OK ' + ' '.join(out[6:]))
-
-
-def sactrace(ps, st0, rain, pet):
-    """-> (events dict, parse_kresult triple) | None"""
-    return parse_sactrace(run_impl([sactrace_line(ps, st0, rain, pet)])[0])
